@@ -4,6 +4,7 @@ import (
 	"fmt"
 	"math/rand"
 	"net"
+	"os"
 	"sort"
 	"strings"
 	"sync"
@@ -109,7 +110,21 @@ func judgeQuiescent(r *ev.Run, s *sutc.SUT, name, scenario string, detail map[st
 		r.Inconclusive("stats-never-stable:" + scenario)
 		return
 	}
-	if broken := conservation(name, st); len(broken) > 0 {
+	broken := conservation(name, st)
+	// Two identical dumps do not prove that nothing is in flight: a backend connect that got no answer yet (the listener was being
+	// closed when the SYN arrived) is decided only by its retransmission or by the connect timeout (3 s by default). The equations
+	// are therefore given up to 5 s to become true; a connection or request that is really lost stays lost.
+	for waited := 0; len(broken) > 0 && waited < 5000; waited += 100 {
+		time.Sleep(100 * time.Millisecond)
+		if cur, err := s.Stats("service." + name + "."); err == nil {
+			st = cur
+			broken = conservation(name, st)
+		}
+		if len(broken) == 0 {
+			r.Count("equations_true_only_after_an_in_flight_operation_ended", 1)
+		}
+	}
+	if len(broken) > 0 {
 		kind := "other"
 		switch {
 		case strings.Contains(broken[0], "cx_"):
@@ -120,6 +135,11 @@ func judgeQuiescent(r *ev.Run, s *sutc.SUT, name, scenario string, detail map[st
 			kind = "cmd"
 		}
 		w := map[string]interface{}{"scenario": scenario, "broken": broken, "stats": statsSubset(name, st)}
+		if kind == "cx" {
+			if g, err := s.Goroutines(); err == nil {
+				w["connection_handlers"] = truncStr(extractStacks(g, "HandleConn", 4)+"\n\n"+extractStacks(g, "handleConn", 4), 12000)
+			}
+		}
 		for k, v := range detail {
 			w[k] = v
 		}
@@ -131,6 +151,7 @@ func judgeQuiescent(r *ev.Run, s *sutc.SUT, name, scenario string, detail map[st
 
 func c20(r *ev.Run) {
 	r.Rule("fixed scenario list x PRNG parameters, each ending in quiescence (client connections closed or service stopped; two identical stat dumps >= 50 ms apart): normal / multi-key traffic, invalid and unsupported requests, MOVED and ASK redirections, backend reset and silence with requests in flight, connection-limit rejections, client disconnecting with requests in flight, service stopped while connections are open (idle, and with pipelines and redirections in flight); the same for a TCP service (traffic, dial failures, host removal, stop while open); distinct = distinct scenarios x parameter classes")
+	r.Assume("quiescence = every client connection of the scenario closed (or the service stopped), simulated nodes idle, two identical stat dumps >= 50 ms apart; equations still false then are re-read for up to 5 s (connect timeout 3 s) before they count")
 	r.Assume("stat names follow utils.BuildStats: service.<name>.{downstream,upstream}.{cx_total,cx_destroy_total,cx_active,rq_total,rq_success_total,rq_failure_total} and service.<name>.redis.<cmd>.{total,success,error}")
 	s, err := startSUT(r, false, 200, 20)
 	if err != nil {
@@ -143,11 +164,16 @@ func c20(r *ev.Run) {
 	if r.Tier == "thorough" {
 		rounds = 60
 	}
+	if os.Getenv("VERIF_C20_ONLY") != "" {
+		rounds = 300
+	}
 	for round := 0; round < rounds; round++ {
 		if sutDied(r, s, "between rounds") {
 			return
 		}
-		c20Redis(r, s, rnd, round)
+		if os.Getenv("VERIF_C20_ONLY") == "" { // debugging aid: VERIF_C20_ONLY=<tcp scenario> repeats that scenario only
+			c20Redis(r, s, rnd, round)
+		}
 		c20TCP(r, s, rnd, round)
 	}
 	r.Require("scenarios_judged", int64(rounds*9))
@@ -545,6 +571,9 @@ func c20TCP(r *ev.Run, s *sutc.SUT, rnd *rand.Rand, round int) {
 		}},
 	}
 	for _, sc := range scens {
+		if only := os.Getenv("VERIF_C20_ONLY"); only != "" && sc.name != only {
+			continue
+		}
 		var bs []*tcpsim.Backend
 		var hs []sutc.Host
 		for i := 0; i < 2; i++ {
